@@ -272,6 +272,40 @@ func checkC05(c *Ctx) {
 		}
 	}
 
+	// C05.10 a verified QC raises HighQC even when its view is stale (otherwise a replica that follows views through
+	// timeout certificates never learns newer QCs and, once leader, proposes on an old one that locked peers refuse)
+	if updQC := p.Method("protocol", "ViewStates", "UpdateHighQC"); updQC != nil {
+		var vsi ssa.CallInstruction
+		for _, s := range callsIn(adv, false, func(cc *ssa.CallCommon) bool { return cc.IsInvoke() && cc.Method.Name() == "VerifySyncInfo" }) {
+			vsi = s
+		}
+		if vsi != nil {
+			vk := fl.K.Key(vsi.Value())
+			bad := ""
+			for _, b := range adv.Blocks {
+				for _, s := range b.Succs {
+					for _, f := range fl.edgeFacts(b, s) {
+						if f.Op == "==" && oneIsNil(f) && nonNil(f) == vk+"#3" {
+							w := cfgSearch(fl, nil, s, isReturn, isCallTo(updQC), func(fs []Fact) bool {
+								for _, g := range fs {
+									if g.Op == "==" && oneIsNil(g) && nonNil(g) == vk+"#0" {
+										return true // no QC in the sync info
+									}
+								}
+								return false
+							})
+							if w != nil {
+								bad = p.InstrPos(w)
+							}
+						}
+					}
+				}
+			}
+			c.Check(bad == "", "C05.10", "advanceView: every verified QC is offered to UpdateHighQC, stale view or not", p.FuncPos(adv),
+				"after VerifySyncInfo succeeded with a QC, no return is reachable before UpdateHighQC", "a verified QC can be dropped without updating HighQC (return at "+bad+")")
+		}
+	}
+
 	// C05.9 sibling agreement of the timeout rules: a quorum certificate carried by a sync info can advance the view
 	// (otherwise a certified proposal never moves a replica on and every view has to time out)
 	tr := p.Iface("protocol/synchronizer", "TimeoutRuler")
